@@ -18,6 +18,11 @@
 //        -> nsurf {body X_GB[12] X_BS[12] bsCentre[3] bsRadius} | nbrute {i j kind value} | nactive {i j kind value}
 //           brute = the registered tracker called directly on EVERY pair of surfaces on different bodies, exactly as the subsystem
 //           calls it (value: depth of a point contact / number of faces of a mesh contact); active = getActiveContacts
+//   HM kind rotFaces hsAng[3] hsP[3] mAng[3] mP[3] data[12]     ContactTracker::HalfSpaceTriangleMesh called directly on a mesh whose
+//        faces list their vertices in a rotated order (face f is rotated by (f + rotFaces) mod 3): kind 0 tetrahedron with the 4 vertices
+//        data[12], 1 brick mesh (half lengths data[0..2]) shifted by data[3..5], 2 sphere mesh radius data[0] shifted by data[3..5]
+//        -> ok nReported nBrute nMissing nExtra margin     brute = faces with a vertex strictly inside the half space (x_H > 0),
+//           margin = smallest |x_H| over the vertices
 //   SEARCH seed n                   implementation-only predicates (contact iff overlap, formulas, swap, rigid motion)
 #include "Simbody.h"
 #include <cstdio>
@@ -196,6 +201,33 @@ int main() {
                 const ContactSnapshot& act = tracker.getActiveContacts(st); pr((double)act.getNumContacts());
                 for (int q = 0; q < act.getNumContacts(); ++q) { const Contact& c = act.getContact(q); int a = (int)c.getSurface1(), b = (int)c.getSurface2(); if (a > b) std::swap(a, b);
                     std::pair<double,double> v = value(c); pr((double)a); pr((double)b); pr(v.first); pr(v.second); }
+            }
+            else if (k == "HM") {
+                const int kind = (int)nx(), rotF = (int)nx(); Rotation RH = rot(nv()); Vec3 pH = nv(); Rotation RM = rot(nv()); Vec3 pM = nv();
+                double dta[12]; for (int q = 0; q < 12; ++q) dta[q] = nx();
+                Array_<Vec3> verts; Array_<int> faces;
+                if (kind == 0) { for (int q = 0; q < 4; ++q) verts.push_back(Vec3(dta[3*q], dta[3*q+1], dta[3*q+2]));
+                    int f[4][3] = {{0,1,2},{0,3,1},{1,3,2},{2,3,0}};
+                    // orient outward: flip a face if its normal points towards the centroid
+                    Vec3 cen = (verts[0]+verts[1]+verts[2]+verts[3])/4;
+                    for (int q = 0; q < 4; ++q) { Vec3 a = verts[f[q][0]], b = verts[f[q][1]], c = verts[f[q][2]]; if (dot((b-a)%(c-a), a-cen) < 0) std::swap(f[q][1], f[q][2]);
+                        for (int v = 0; v < 3; ++v) faces.push_back(f[q][v]); } }
+                else { PolygonalMesh pm = kind == 1 ? PolygonalMesh::createBrickMesh(Vec3(dta[0], dta[1], dta[2]), 1) : PolygonalMesh::createSphereMesh(dta[0], 1);
+                    pm.transformMesh(Transform(Vec3(dta[3], dta[4], dta[5]))); ContactGeometry::TriangleMesh t0(pm);
+                    for (int v = 0; v < t0.getNumVertices(); ++v) verts.push_back(t0.getVertexPosition(v));
+                    for (int f = 0; f < t0.getNumFaces(); ++f) for (int v = 0; v < 3; ++v) faces.push_back(t0.getFaceVertex(f, v)); }
+                const int nf = (int)faces.size() / 3;
+                for (int f = 0; f < nf; ++f) { const int sh = (f + rotF) % 3; int a[3] = {faces[3*f], faces[3*f+1], faces[3*f+2]}; for (int v = 0; v < 3; ++v) faces[3*f+v] = a[(v + sh) % 3]; }
+                ContactGeometry::TriangleMesh mesh(verts, faces);
+                Transform X_GH(RH, pH), X_GM(RM, pM);
+                ContactTracker::HalfSpaceTriangleMesh tr; Contact cur; UntrackedContact prior(ContactSurfaceIndex(0), ContactSurfaceIndex(1));
+                bool ok = tr.trackContact(prior, X_GH, ContactGeometry::HalfSpace(), X_GM, mesh, 0, cur);
+                std::set<int> rep; if (ok && !cur.isEmpty() && TriangleMeshContact::isInstance(cur)) rep = TriangleMeshContact::getAs(cur).getSurface2Faces();
+                const Transform X_HM = ~X_GH * X_GM; std::set<int> brute; Real margin = Infinity;
+                for (int f = 0; f < mesh.getNumFaces(); ++f) for (int v = 0; v < 3; ++v) {
+                    const Real x = (X_HM * mesh.getVertexPosition(mesh.getFaceVertex(f, v)))[0]; margin = std::min(margin, std::abs(x)); if (x > 0) brute.insert(f); }
+                int missing = 0, extra = 0; for (int f : brute) if (!rep.count(f)) ++missing; for (int f : rep) if (!brute.count(f)) ++extra;
+                pr(ok ? 1.0 : 0.0); pr((double)rep.size()); pr((double)brute.size()); pr((double)missing); pr((double)extra); pr(margin);
             }
             else if (k == "TS") { Rotation R = rot(nv()); Vec3 p1 = nv(); Real r1 = nx(); Vec3 p2 = nv(); Real r2 = nx(); Real cutoff = nx();
                 ContactTracker::SphereSphere tr; Contact cur; UntrackedContact prior(ContactSurfaceIndex(0), ContactSurfaceIndex(1));
